@@ -53,6 +53,17 @@ impl Bucket {
         self.capacity.get() - self.index
     }
 
+    /// Read-only view of the bucket's layout
+    #[cfg(lasso_verif)]
+    pub(crate) fn verif_audit(&self) -> crate::verif::BlockAudit {
+        crate::verif::BlockAudit {
+            block: self.items.as_ptr() as usize,
+            data: self.items.as_ptr() as usize,
+            capacity: self.capacity.get(),
+            used: self.index,
+        }
+    }
+
     /// Returns whether the current bucket is full
     pub(crate) fn is_full(&self) -> bool {
         self.index == self.capacity.get()
